@@ -162,6 +162,15 @@ func (r *Router) dropIQResultRoute(id string, route *IQResultRoute) {
 	r.IQResultRouteLock.Unlock()
 }
 
+// cancelIQResultRoute unregisters a pending route whose request could not be sent.
+func (r *Router) cancelIQResultRoute(id string, result chan stanza.IQ) {
+	r.IQResultRouteLock.Lock()
+	if route, ok := r.IQResultRoutes[id]; ok && route.result == result {
+		delete(r.IQResultRoutes, id)
+	}
+	r.IQResultRouteLock.Unlock()
+}
+
 func (r *Router) Match(p stanza.Packet, match *RouteMatch) bool {
 	for _, route := range r.routes {
 		if route.Match(p, match) {
